@@ -33,7 +33,13 @@ impl Scenario for C01 {
         }
     }
     fn plan(&self, seed: u64, run: u64, tier: Tier) -> Plan {
-        if run < 12 { enum_lengths(seed, run, tier) } else { gen_plan("C01", seed, run, tier) }
+        if run < 12 {
+            enum_lengths(seed, run, tier)
+        } else if run % 10 == 9 {
+            super::soup::soup_plan("C01", seed, run, tier)
+        } else {
+            gen_plan("C01", seed, run, tier)
+        }
     }
 }
 
